@@ -10,7 +10,8 @@ import NibabelModel.Generated.C17Codes
                     orig_loop_characterisation, orig_correct_iff_no_adjacent
       parser      : chunking_independent, rechunk_text_node
       data block  : elem_roundtrip, buffer_roundtrip, order_roundtrip, data_block_roundtrip, codes_pinned,
-                    data_block_roundtrip_gifti (instantiated for the regenerated tables)
+                    data_block_roundtrip_gifti (instantiated for the regenerated tables),
+                    data_block_roundtrip_any_memory_order, writer_bytes_memory_order_independent
 
     PARTIAL (external, enter as hypotheses/parameters, checked only by the oracle on the real code):
       expat / ElementTree (escaping, which handler calls are made), base64, zlib, ASCII number printing/parsing. -/
@@ -277,6 +278,33 @@ theorem data_block_roundtrip (K : Codes) (hK : K.Distinct) (X : Ext) (b64enc : L
   have : (K.encAscii == K.encAscii) = true := by simp
   rw [← hdec]
   cases gz <;> simp
+
+/-- the round trip does not depend on the byte order the array has IN MEMORY when it is written (arrays loaded
+    from a document that declared the other endianness, user-supplied non-native data): for every memory order
+    `memBig`, writing the memory image of `elems` and reading it back (declared order = machine order `big`)
+    returns `elems`. -/
+theorem data_block_roundtrip_any_memory_order (K : Codes) (hK : K.Distinct) (X : Ext) (b64enc : List Nat → Text)
+    (deflate : List Nat → List Nat) (hX : CodecContract X b64enc deflate)
+    (gz big col memBig : Bool) (dt w : Nat) (kind : Char)
+    (hdt : K.dtinfo.find? (fun r => r.1 == dt) = some (dt, w, kind)) (hw : 0 < w)
+    (shape elems : List Nat) (hlen : elems.length = prod shape) (hr : ∀ v ∈ elems, v < 256 ^ w) :
+    ∃ txt, writeDataBlockMem b64enc deflate gz big w col shape memBig (toBytes memBig w elems) = .ok txt ∧
+      readDataBlock K X
+        ⟨if gz then K.encGz else K.encB64, if big then K.endBig else K.endLittle, dt, shape,
+         if col then K.ordCol else K.ordRow⟩ (some txt) = .ok ⟨dt, shape, elems⟩ := by
+  refine ⟨writeDataBlock b64enc deflate gz big w col shape elems, ?_, ?_⟩
+  · simp [writeDataBlockMem, fromBuffer_toBytes memBig w hw elems hr]
+  · exact data_block_roundtrip K hK X b64enc deflate hX gz big col dt w kind hdt hw shape elems hlen hr
+
+/-- … and the bytes written are the same whatever the memory order (so a big-endian array in memory is NOT
+    written raw under the machine's declared order) -/
+theorem writer_bytes_memory_order_independent (big col : Bool) (w : Nat) (hw : 0 < w) (shape elems : List Nat)
+    (hr : ∀ v ∈ elems, v < 256 ^ w) (m1 m2 : Bool) :
+    writerBytes big w col shape m1 (toBytes m1 w elems) = writerBytes big w col shape m2 (toBytes m2 w elems) := by
+  simp [writerBytes, fromBuffer_toBytes _ w hw elems hr]
+
+example : writerBytes false 4 false [2] true [0, 0, 2, 156, 255, 255, 255, 254] = .ok [156, 2, 0, 0, 254, 255, 255, 255] := by
+  rfl
 
 /-- the REGENERATED tables satisfy what the theorems assume: the three encodings, two byte orders and two index
     orders have distinct codes; the GIFTI data types are uint8 (1 byte, 'u'), int32 (4, 'i'), float32 (4, 'f');
